@@ -124,3 +124,25 @@ func BigBacklog(seed uint64) Scenario {
 			{Topic: 0, Phase: 2, CancelAtRecv: -1, NestedTopic: -1}},
 		Pubs: []PubSpec{{Topic: 0, Calls: calls, Batch: 8}}}
 }
+
+// DupUUIDs: persistent mode, messages that share a UUID or have none; one subscription before, one during, one after.
+func DupUUIDs(seed uint64) Scenario {
+	return Scenario{Buf: int(seed % 3), Persistent: true, Seed: seed, Big: true, DupUUID: true,
+		Subs: []SubSpec{
+			{Topic: 0, Phase: 0, CancelAtRecv: -1, NestedTopic: -1},
+			{Topic: 0, Phase: 1, AfterPubs: 3, CancelAtRecv: -1, NestedTopic: -1, NackFirst: 1, NackEvery: 3},
+			{Topic: 0, Phase: 2, CancelAtRecv: -1, NestedTopic: -1}},
+		Pubs: []PubSpec{{Topic: 0, Calls: 6, Batch: 2}, {Topic: 0, Calls: 4, Batch: 1}}}
+}
+
+// FreshTopics: persistent mode, three publishers whose n-th calls start together and go to a topic nobody has used
+// before; afterwards one subscription per topic, which must be replayed all three messages.
+func FreshTopics(seed uint64, n int) Scenario {
+	sc := Scenario{Buf: 1, Persistent: true, Seed: seed, Big: true, LockStep: true,
+		Pubs: []PubSpec{{Topic: 2000, Calls: n, Batch: 1, TopicPerCall: true}, {Topic: 2000, Calls: n, Batch: 1, TopicPerCall: true},
+			{Topic: 2000, Calls: n, Batch: 1, TopicPerCall: true}}}
+	for c := 0; c < n; c++ {
+		sc.Subs = append(sc.Subs, SubSpec{Topic: 2000 + c, Phase: 2, CancelAtRecv: -1, NestedTopic: -1})
+	}
+	return sc
+}
